@@ -4,10 +4,14 @@
 cd "$(dirname "$0")"
 . ./env.sh
 TIER="${1:-quick}"
+export C16_REPO="${VERIF_REPO:-/repo}"
+export C16_ROOT="$(pwd)"
+MODFLAG="$VERIF_MODFLAG"
 mkdir -p bin/c16
 rm -f bin/c16/sched.json bin/c16/race.json bin/c16/race.log
+T0=$(date +%s)
 # --- race pass ------------------------------------------------------------------------
-if go build -race -o bin/c16race ./cmd/c16race 2>bin/c16/build.err; then
+if go build $MODFLAG -race -o bin/c16race ./cmd/c16race 2>bin/c16/build.err; then
   GORACE="halt_on_error=1 exitcode=66 log_path=bin/c16/race.log" ./bin/c16race bin/c16/race.json
   echo $? > bin/c16/race.exit
 else
@@ -15,15 +19,16 @@ else
 fi
 # --- overlay: pools.go with "sync" redirected to the shim --------------------------------
 python3 - <<'PY'
-import json, re
-src = open('/repo/pools.go').read()
+import json, re, os
+repo, root = os.environ['C16_REPO'], os.environ['C16_ROOT']
+src = open(repo + '/pools.go').read()
 new = re.sub(r'import\s+"sync"', 'import sync "github.com/asticode/go-astits/verifsync"', src)
 new = re.sub(r'^(\s*)"sync"\s*$', r'\1sync "github.com/asticode/go-astits/verifsync"', new, flags=re.M)
-open('/verif/bin/c16/pools.go', 'w').write(new)
-json.dump({"Replace": {"/repo/pools.go": "/verif/bin/c16/pools.go", "/repo/verifsync/verifsync.go": "/verif/shim/verifsync.go"}}, open('/verif/bin/c16/overlay.json', 'w'))
+open(root + '/bin/c16/pools.go', 'w').write(new)
+json.dump({"Replace": {repo + "/pools.go": root + "/bin/c16/pools.go", repo + "/verifsync/verifsync.go": root + "/shim/verifsync.go"}}, open(root + '/bin/c16/overlay.json', 'w'))
 print("overlay: sync redirected" if new != src else "overlay: pools.go does not import sync (shim inactive)")
 PY
-if ! go build -overlay bin/c16/overlay.json -tags "verif c16shim" -o bin/c16sched ./cmd/c16 2>bin/c16/build.err; then
+if ! go build $MODFLAG -overlay bin/c16/overlay.json -tags "verif c16shim" -o bin/c16sched ./cmd/c16 2>bin/c16/build.err; then
   cat bin/c16/build.err; echo "BUILD-FAILED property=C16 (overlay build)"; exit 2
 fi
 N=14
@@ -33,9 +38,10 @@ for i in $(seq 0 $((N-1))); do
 done
 wait
 python3 - <<'PY'
-import json, glob
+import json, glob, os
+root = os.environ['C16_ROOT']
 parts = []
-for f in sorted(glob.glob('/verif/bin/c16/shard.*.json')):
+for f in sorted(glob.glob(root + '/bin/c16/shard.*.json')):
     try: parts.append(json.load(open(f)))
     except Exception as e: print("unreadable shard result", f, e)
 N = 14
@@ -57,7 +63,7 @@ else:
             s["exhaustive"] = s["exhaustive"] and q["exhaustive"]
         m["scenarios"].append(s)
         m["samples"].append({"scenario": s["name"], "executions": s["executed"], "shards": N})
-    json.dump(m, open('/verif/bin/c16/sched.json', 'w'), indent=1)
+    json.dump(m, open(root + '/bin/c16/sched.json', 'w'), indent=1)
     print("c16 sched:", m["executions"], "executions in", N, "shards; violations:", len(m["violations"]))
 PY
-exec ./bin/check C16 --tier "$TIER"
+VERIF_C16_T0=$T0 exec ./bin/check C16 --tier "$TIER"
